@@ -22,7 +22,7 @@ PROPS = {
         not_decided=["the string matching that recognises the directive text inside a comment (comment.lines().map(trim) — str iterators): assumed as has_ignore()/toggled()",
                      "format_multiline_table's loop (it toggles the ignore state per field and calls format_field): not under contract; format_field itself is (unit table)"],
         assumptions=["Block::stmts_with_semicolon / with_stmts / Peekable::next/peek behave as sequences (class A/B)"]),
-    "C09": dict(units=["ctx", "block", "lib", "sort"], bounded=[dict(kind="lib", witnesses="RANGE_SORT_WITNESSES"), dict(kind="lib", witnesses="RANGE_BLANK_WITNESSES"), dict(kind="range", kinds=["before", "blank-lines", "after", "panic", "error", "timeout"])],
+    "C09": dict(units=["ctx", "block", "lib", "sort"], bounded=[dict(kind="lib", witnesses="RANGE_SORT_WITNESSES"), dict(kind="lib", witnesses="RANGE_BLANK_WITNESSES"), dict(kind="range", kinds=["before", "blank-lines", "after", "panic", "error", "timeout"]), dict(kind="ignore", kinds=["ignored-changed"], case_contains="+range@")],
         explanation="should_format_node (real text) returns NotInRange iff start < range.start or end > range.end for all positions and bounds. "
                     "format_stmt / format_last_stmt: NotInRange => only nested blocks may change (stmt_block::*, assumed). format_block: an out-of-range "
                     "statement keeps its semicolon token and trailing trivia (pair pushed as returned), in the same position.",
@@ -49,9 +49,11 @@ PROPS = {
         not_decided=["escape rewriting of quoted strings (regexes RE / UNNECESSARY_ESCAPES + closure): assumed value-preserving (verif::rewrite_escapes); C04's escape clause is undecided",
                      "that `0.5` and `.5` denote the same number is the reader's arithmetic, no numeric-literal semantics is specified"],
         assumptions=["std string primitives agree with their Seq<char> specs (class B wrappers)"]),
-    "C10": dict(units=["ctx", "tok", "lib"], bounded=[dict(kind="lib", witnesses="C10_WITNESSES"), dict(kind="corpus", kinds=["whitespace"], configs="C10"), dict(kind="inject", kinds=["whitespace"])],
+    "C10": dict(units=["ctx", "tok", "lib", "args"], bounded=[dict(kind="lib", witnesses="C10_WITNESSES"), dict(kind="corpus", kinds=["whitespace"], configs="C10"), dict(kind="inject", kinds=["whitespace"])],
         explanation="single source of newline/indent trivia proved against the configuration (ctx); format_token normalises newlines inside block comments/long strings and right-trims line comments; "
-                    "format_eof ends a non-empty trivia list with exactly one configured newline; format_code returns the printed AST unmodified.",
+                    "format_eof ends a non-empty trivia list with exactly one configured newline; format_code returns the printed AST unmodified. "
+                    "separator_or_indent / format_call / format_function_args (real text): what is put between a function name and its arguments is never a space in front of a line's indentation "
+                    "(behind comments that end the line it is the indent helper's token).",
         not_decided=["that every trivia-construction site in functions outside the units uses these helpers"],
         assumptions=["TokenType::tabs(n)/spaces(n) print n tabs/spaces (class A)", "indent arithmetic does not overflow usize (nesting depth x indent_width), stated as a precondition"]),
     "C11": dict(units=["ctx", "tok", "args"], bounded=[dict(kind="lib", witnesses="C11_WITNESSES"), dict(kind="corpus", kinds=["callparens"], configs="C11")],
@@ -273,6 +275,10 @@ C10_WITNESSES = [w(WS_SRC, oracle="whitespace", **o) for o in (dict(), dict(line
     w('for k, v in pairs(t)\n-- d\ndo end\n', oracle="whitespace"),   # D14 (repaired)
     w('local x = 1; -- c  \r\nlocal y = 2; --[[ a\r\nb ]]\r\nreturn x; -- d   \r\n', oracle="whitespace"),   # D35 (repaired): comments moved off a removed semicolon
     w('local x = 1; -- c  \nlocal y = 2; --[[ a\nb ]]\nreturn x; -- d   \n', oracle="whitespace", line_endings="Windows"),
+    # D38 (repaired): arguments behind comments that end the line of the function name
+    w('do\nf\n-- x\n(a)\nobj:m(1).g\n--[[y]]\n(2)\nend\n', oracle="whitespace", space_after_function_names="Always"),
+    w('do\nf\n-- x\n"s"\ng\n-- y\n{ 1 }\nh(\n-- z\n"t")\nend\n', oracle="whitespace", call_parentheses="None"),
+    w('do\nf\n-- x\n"s"\ng\n-- y\n{ 1 }\nend\n', oracle="whitespace", call_parentheses="Input", space_after_function_names="Calls"),
 ]
 TYPE_WITNESSES = [
     w('type Callback = ((a: number) -> Result) | ((a: number, b: string) -> ()) | nil\nlocal x: (() -> ())? = nil\ntype U = (A & B) | C\nlocal f = function(cb: ((n: number) -> ()) | ((s: string) -> boolean) | nil) end\n', oracle="tree", syntax="luau", sweep=(20, 140)),
